@@ -53,13 +53,17 @@ func (w *World) aimAtUnique(x *Rec) {
 	if len(ups) == 0 || len(live) == 0 {
 		return
 	}
-	o := w.m.objs[pick(w.rng, live)]
-	switch pick(w.rng, ups) {
+	copyUnique(w.rng, x, w.m.objs[pick(w.rng, live)], pick(w.rng, ups))
+}
+
+// copyUnique gives x the value o holds on unique path p.
+func copyUnique(r *Rng, x, o *Rec, p string) {
+	switch p {
 	case "K":
 		x.K = o.K
 	case "KS":
 		x.KS = o.KS
-		if w.rng.Bool() {
+		if r.Bool() {
 			x.KS = strings.ToUpper(o.KS)
 		}
 	case "U8":
@@ -169,6 +173,28 @@ func (w *World) Step(o HistOpts) string {
 					w.aimAtUnique(x)
 				}
 				batch = append(batch, x)
+			}
+		}
+		if ups := w.cfg.uniquePathsSorted(); o.BiasUnique && len(live) > 0 && len(ups) > 0 && r.P(0.15) {
+			// one stored object twice, as two distinct values, the later copy holding the unique
+			// value of a third member: [.., v1, .., other, .., v2, ..] in any order
+			u := pick(r, live)
+			v1, v2 := w.callerCopy(u), w.callerCopy(u)
+			mutateRec(r, v1, o.Rec)
+			mutateRec(r, v2, o.Rec)
+			other := genRec(r, w.m.tags, o.Rec)
+			w.m.tags++
+			if len(live) > 1 && r.P(0.3) {
+				other = w.callerCopy(pick(r, live))
+			}
+			if other.UUID() != u {
+				copyUnique(r, v2, other, pick(r, ups))
+				trio := []*Rec{v1, other, v2}
+				if r.P(0.3) {
+					j := r.Intn(3)
+					trio[0], trio[j] = trio[j], trio[0]
+				}
+				batch = append(batch, trio...)
 			}
 		}
 		if kind == "many" {
